@@ -355,6 +355,7 @@ class SysSim(Engine):
                        len(world["flows"]), len(world["stocks"]), len(world["params"]), world["naming"]))
         # row faults on a one-row parameter table change nothing: only faults that really altered the input count
         faults = [f for f in faults if f["kind"] not in ("param_row_dropped", "param_row_duplicated") or f["kind"] in applied]
+        faults = [f for f in faults if f["kind"] not in ("dim_file_eio", "param_file_eacces") or "io_error" in applied]
         if faults:
             for f in faults:
                 self._fault(st, f["kind"])
